@@ -587,6 +587,9 @@ pub fn long_string_files(lens: &[usize]) -> Vec<Vec<u8>> {
     }
     out
 }
+pub fn tlf_of(ty: u8, len: u64) -> Vec<u8> {
+    super_tlf(ty, len)
+}
 fn super_tlf(ty: u8, len: u64) -> Vec<u8> {
     tlf(ty, len, 0, true)
 }
